@@ -524,6 +524,26 @@ func (s *Sim) hop(r *CallRec, ctx context.Context, ss grpc.ServerStream, op Op) 
 		for _, c := range sib {
 			<-c
 		}
+	case 'f':
+		// two sub-programs of the handler run concurrently on the stream (one sender and
+		// one goroutine making header / trailer calls, which the API permits)
+		done := make(chan struct{})
+		b := op.B
+		e.Go(fmt.Sprintf("h%d.fork", id), func() {
+			defer close(done)
+			for _, o := range b {
+				if s.hop(r, ctx, ss, o) {
+					return
+				}
+			}
+		})
+		for _, o := range op.A {
+			if s.hop(r, ctx, ss, o) {
+				break
+			}
+		}
+		e.Pt("h.join")
+		<-done
 	case 'G':
 		// wait until another call's handler opens the gate
 		e.Pt("h.gate.wait")
